@@ -1,0 +1,30 @@
+//go:build verif
+
+package functions
+
+import "sort"
+
+// Hooks for property C20 (instances do not influence each other), used only by the external
+// verification harness (build tag verif).
+
+// VerifResetBridgeCaches empties the process-wide expression caches (compiled programs and
+// preprocessing results) of the global bridge, so that a "solo" run starts from the state a
+// fresh process would have.
+func VerifResetBridgeCaches() {
+	b := GetExprBridge()
+	b.programCache.Range(func(k, _ any) bool { b.programCache.Delete(k); return true })
+	b.preprocessCache.Range(func(k, _ any) bool { b.preprocessCache.Delete(k); return true })
+}
+
+// VerifProgramCacheKeys lists the expression texts that currently have a compiled program.
+func VerifProgramCacheKeys() []string {
+	var ks []string
+	GetExprBridge().programCache.Range(func(k, _ any) bool {
+		if s, ok := k.(string); ok {
+			ks = append(ks, s)
+		}
+		return true
+	})
+	sort.Strings(ks)
+	return ks
+}
